@@ -214,6 +214,9 @@ def directed(run, prop, tier, seed):
                 # a spliced block is expanded in place, in the application's block: its definitions are visible to the body around the splice
                 (f"*=0x008000\n.macro wrap(code) {{\n{{{{code}}}}\n.dw inner\n}}\nwrap({{\ninner:\n.db {a}\n}})\n", bytes([a, 0x00, 0x80])),
                 (f"*=0x008000\ninner:\n.db 0xEE\n.macro wrap(code) {{\n.dw inner\n{{{{code}}}}\n.db v\n}}\nwrap({{\n.db {a}\ninner:\nv = {b}\n}})\n.dw inner\n", bytes([0xEE, 0x04, 0x80, a, b, 0x00, 0x80])),
+                # a value parameter of an inner application named like a code-block parameter of an enclosing one (and vice versa)
+                (f"*=0x008000\n.macro emit(value) {{\n.db value\n}}\n.macro wrap(value) {{\n.db 0xAA\n{{{{value}}}}\nemit({a})\n}}\nwrap({{\n.db {b}\n}})\n", bytes([0xAA, b, a])),
+                (f"*=0x008000\nblk := {a}\n.macro run(blk) {{\n{{{{blk}}}}\n{{\nblk = {b}\n.db blk\n}}\n}}\nrun({{\n.db 1\n}})\n.db blk\n", bytes([1, b, a])),
                 ("*=0x008000\nnot_defined_macro(1)\n", None),
                 # an undefined macro fails wherever the application is reached
                 (f"*=0x008000\n.db {a}\n.if 1 {{\n.db 1\nnot_defined_macro()\n}} else {{\n.db 2\n}}\n", None),
